@@ -83,27 +83,52 @@ def repetition_caps(prog, rep, RID):
             # The cap of an edge is the largest flow value reachable from / reaching it.  The value of an ignored edge bounds nothing: it must not enter
             # the maxima (edges_to_ignore handed to the computation), and the ignored edges themselves need a bound that does not come from a flow
             # value of their own (a structural one, derived from the caps of the other edges).
+            def name_def(nm):
+                defs_ = [st for st in _ast.walk(g.node) if isinstance(st, _ast.Assign) and any(isinstance(t, _ast.Name) and t.id == nm for t in st.targets)]
+                return defs_[0].value if len(defs_) == 1 else None
             src = v
             if isinstance(v, _ast.Name):
-                defs_ = [st for st in _ast.walk(g.node) if isinstance(st, _ast.Assign) and any(isinstance(t, _ast.Name) and t.id == v.id for t in st.targets)]
-                if len(defs_) != 1:
+                src = name_def(v.id)
+                if src is None:
                     raise AnalysisError(f"{cname}.__init__: cannot tell how `{v.id}` (the repetition caps) is defined")
-                src = defs_[0].value
-            if not (isinstance(src, _ast.Call) and isinstance(src.func, _ast.Attribute) and src.func.attr == "compute_edge_max_reachable_value"):
+            # form A: d = compute(...); for e in d: if e in ignored: d[e] = B         form B: d = {e: (B if e in ignored else b) for e, b in compute(...).items()}
+            override_value, compute_call = None, None
+            if isinstance(src, _ast.Call) and isinstance(src.func, _ast.Attribute) and src.func.attr == "compute_edge_max_reachable_value":
+                compute_call = src
+                overrides = [st for st in _ast.walk(g.node) if isinstance(st, _ast.Assign) and isinstance(st.targets[0], _ast.Subscript) and isinstance(v, _ast.Name) and
+                             norm(st.targets[0].value) == v.id and any("edges_to_ignore" in norm(t_) for t_, pol_ in _enclosing_tests(g.node, st) if pol_)]
+                override_value = overrides[0].value if overrides else None
+            elif isinstance(src, _ast.DictComp) and len(src.generators) == 1 and isinstance(src.generators[0].iter, _ast.Call) and \
+                    isinstance(src.generators[0].iter.func, _ast.Attribute) and src.generators[0].iter.func.attr == "items":
+                base = src.generators[0].iter.func.value
+                base = name_def(base.id) if isinstance(base, _ast.Name) else base
+                if isinstance(base, _ast.Call) and isinstance(base.func, _ast.Attribute) and base.func.attr == "compute_edge_max_reachable_value":
+                    compute_call = base
+                    val = src.value
+                    if isinstance(val, _ast.IfExp) and "edges_to_ignore" in norm(val.test):
+                        override_value = val.orelse if norm(val.test).startswith("not ") or " not in " in norm(val.test) else val.body
+            if compute_call is None:
+                if any(isinstance(n_, _ast.Call) and isinstance(n_.func, _ast.Attribute) and n_.func.attr == "compute_edge_max_reachable_value" for n_ in _ast.walk(g.node)):
+                    raise AnalysisError(f"{cname}.__init__: cannot relate the repetition caps `{norm(v)[:60]}` to compute_edge_max_reachable_value (unrecognised construction)")
                 rep.violation(RID, key, f"max_edge_repetition_dict = `{norm(v)[:80]}` is not the tabled provider ({why}): walks that must repeat an edge more often are cut off", g.loc(sup[0]))
                 continue
+            src = compute_call
             ign = _kwarg(src, "edges_to_ignore", 1)
-            overrides = [st for st in _ast.walk(g.node) if isinstance(st, _ast.Assign) and isinstance(st.targets[0], _ast.Subscript) and isinstance(v, _ast.Name) and
-                         norm(st.targets[0].value) == v.id and any("edges_to_ignore" in norm(t_) for t_, pol_ in _enclosing_tests(g.node, st) if pol_)]
             if ign is None or "edges_to_ignore" not in norm(ign):
                 rep.violation(RID, key + ":ignored-values", f"`{norm(src)[:90]}` computes the largest reachable flow value over *all* edges: the value of an ignored edge caps the traversals "
                               "of the edges around it and of the edge itself (s->a 1, a->b F ignored, b->c 3, c->a 3, b->d 3, d->a 3, a->t 1, k=1: optimum 0 for every F, 4 / slack 1 "
                               "reported unless F >= 6; in node-weighted mode every original edge is such an edge)", g.loc(src))
-            elif not overrides:
+            elif override_value is None:
                 rep.violation(RID, key + ":ignored-values", "the ignored edges keep the cap computed from flow values (0 once they do not enter the maxima - no walk can use them): they need a "
                               "bound of their own, derived from the caps of the non-ignored edges", g.loc(src))
             else:
-                ov = norm(_subst(overrides[0].value, _lsd(g.node)))
+                ov = override_value
+                for _i in range(4):
+                    ov2 = _subst(ov, _lsd(g.node))
+                    if norm(ov2) == norm(ov):
+                        break
+                    ov = _ast.parse(norm(ov2), mode="eval").body
+                ov = norm(ov)
                 if "number_of_edges()" in ov and "sum(" in ov:
                     rep.ok(RID, key, "largest non-ignored flow value reachable from / reaching the edge; ignored edges get |E| + the sum of the other caps", g.loc(src))
                 else:
